@@ -376,6 +376,17 @@ def extra(ctx):
         for dims in (1000, 1000000, 200000000, 2147483647):
             ints = [3, 1, dims] if nm == "LIST.NEIGHBOR*IDS" else [0, 3, 1, dims]
             cases.append(case_run(1, state(exec=[I(nm)], int=ints, float=[fbits(1.0)], code=[L(Z(1)), L(Z(2)), L(Z(3))]), 0, 1))
+    # 64 and more dimensions on a size that allows them (the power in the edge-length search overflows: the search must stop)
+    for nm in NBR:
+        for (size, dims) in ((64, 64), (100, 100), (70, 2147483647), (100, 64), (65, 65)):
+            ints = [size, 1, dims] if nm == "LIST.NEIGHBOR*IDS" else [0, size, 1, dims]
+            cases.append(case_run(1, state(exec=[I(nm)], int=ints, float=[fbits(1.0)], code=[L(Z(1)), L(Z(2)), L(Z(3))]), 0, 1))
+    # CODE.SUBST whose substitute contains the pattern: the inserted copies are not searched again
+    for (pat, sub, tgt) in ((Z(1), L(Z(1), Z(1)), L(Z(1), Z(2), L(Z(3), Z(1)))), (N("a"), L(N("a")), L(N("a"), N("a"))), (L(Z(1)), L(L(Z(1)), L(Z(1))), L(L(Z(1)), Z(2)))):
+        for prof in (0, 1):
+            cases.append(case_run(prof, state(exec=[I("CODE.SUBST")], code=[tgt, pat, sub]), 0, 1))
+            cases.append(case_run(prof, state(exec=[I("CODE.SUBST")], code=[tgt, sub, pat]), 0, 1))
+            cases.append(case_run(prof, state(exec=[I("CODE.SUBST")], code=[sub, pat, tgt]), 0, 1))
     for nm in NBR:
         cases += [size_case(0, nm, 10000), size_case(1, nm, 10000)]
         if not quick or nm == "LIST.NEIGHBOR*IDS":
